@@ -146,7 +146,7 @@ package raft
 //@ ghost func sfile(string, uint64) uint64
 //@ ghost func pjoin(string, string) uint64
 //@ ghost func pidx(uint64) uint64
-//@ ghost func pkind(uint64) uint64
+//@ //moved: ghost func pkind(uint64) uint64
 //@ axiom [T-std.snapfile-names] forall(d, i, pidx(mfile(d, i)) == i && pkind(mfile(d, i)) == 1 && pidx(sfile(d, i)) == i && pkind(sfile(d, i)) == 2)
 //@ axiom [T-std.tmpfile-name] forall(d, pkind(pjoin(d, "meta.tmp")) == 3)
 
@@ -258,6 +258,7 @@ package raft
 //@   ensures [C12.label] result1 == nil ==> result0 != nil && isfresh(result0) && result0.snaps == s && result0.meta.index == index && result0.meta.term == term && result0.meta.config == config && result0.meta.size == 0
 //@   ensures result1 == nil ==> result0.file != nil && result0.file.gpath == sfile(s.dir, index) && result0.file.gwr && fs[sfile(s.dir, index)] && !fdone[sfile(s.dir, index)]
 //@   ensures result1 != nil ==> result0 == nil
+//@   ensures [C10.only-snapshot-files] forall(p, pkind(p) == 0 ==> fs[p] == old(fs[p]))
 //@   ensures [C10.new-touches-data-file-only] forall(p, p != sfile(s.dir, index) ==> fs[p] == old(fs[p]) && fdone[p] == old(fdone[p]) && fsize[p] == old(fsize[p]))
 
 // SnapsInv: the latest snapshot (s.index, s.term) is published, complete and labelled with itself.
@@ -342,6 +343,7 @@ package raft
 //@   modifies fs
 //@   crash_inv [C10.snapshot-publish] PubInv(s.dir)
 //@   ensures [C10.snapshot-publish] PubInv(s.dir)
+//@   ensures [C10.only-snapshot-files] forall(p, pkind(p) == 0 ==> fs[p] == old(fs[p]))
 //@   ensures [C09.retain-only-removes-old-unpinned] forall(p, fs[p] != old(fs[p]) ==> !fs[p] && (p == mfile(s.dir, pidx(p)) || p == sfile(s.dir, pidx(p))) && s.used[pidx(p)] == 0)
 //@   ensures [C09.retain-keeps-latest] s.retain >= 1 && old(AllBelow(s)) && old(fs[mfile(s.dir, s.index)]) ==> fs[mfile(s.dir, s.index)] && fs[sfile(s.dir, s.index)] == old(fs[sfile(s.dir, s.index)])
 //@   loop 1 invariant -1 <= rangeindex && rangeindex < len(snaps) && (rangeindex == -1 ==> forall(p, fs[p] == old(fs[p])))
@@ -360,6 +362,7 @@ package raft
 //@   ensures [C12.label] result0.index == old(s.meta.index) && result0.term == old(s.meta.term) && result0.config == old(s.meta.config)
 //@   ensures [C12.label] result1 == nil ==> LabelAt(TmpFile(s.snaps), result0.index, result0.term, result0.config.Index, result0.config.Term, result0.size) && result0.size == fsize[sfile(s.snaps.dir, result0.index)]
 //@   ensures [C10.published] result1 == nil ==> fs[mfile(s.snaps.dir, result0.index)] && DataOK(s.snaps.dir, result0.index)
+//@   ensures [C10.only-snapshot-files] forall(p, pkind(p) == 0 ==> fs[p] == old(fs[p]))
 //@   ensures [C19.snapshot-index-monotone] s.snaps.index >= old(s.snaps.index)
 //@   ensures [C09.latest-updated-after-publish] (result1 == nil ==> s.snaps.index == result0.index && s.snaps.term == result0.term) && (result1 != nil ==> s.snaps.index == old(s.snaps.index) && s.snaps.term == old(s.snaps.term))
 //@   ensures [C10.failure-publishes-nothing] result1 != nil ==> forall(i, fs[mfile(s.snaps.dir, i)] == old(fs[mfile(s.snaps.dir, i)]))
